@@ -174,6 +174,9 @@ class Policy:
         else:
             return False
 
+        if new_rule != old_rule and new_rule in ast.policy:
+            return False
+
         if "p_priority" in ast.tokens:
             priority_index = ast.tokens.index("p_priority")
             if old_rule[priority_index] == new_rule[priority_index]:
@@ -206,14 +209,18 @@ class Policy:
 
         if "p_priority" in ast.tokens:
             priority_index = ast.tokens.index("p_priority")
-            for idx, old_rule, new_rule in zip(old_rules_index, old_rules, new_rules):
-                if old_rule[priority_index] == new_rule[priority_index]:
-                    ast.policy[idx] = new_rule
-                else:
+            for old_rule, new_rule in zip(old_rules, new_rules):
+                if old_rule[priority_index] != new_rule[priority_index]:
                     raise Exception("New rule should have the same priority with old rule.")
-        else:
-            for idx, old_rule, new_rule in zip(old_rules_index, old_rules, new_rules):
-                ast.policy[idx] = new_rule
+
+        new_policy = list(ast.policy)
+        for idx, new_rule in zip(old_rules_index, new_rules):
+            new_policy[idx] = new_rule
+        if any(new_policy.count(rule) > 1 for rule in new_rules):
+            return False
+
+        for idx, new_rule in zip(old_rules_index, new_rules):
+            ast.policy[idx] = new_rule
 
         return True
 
